@@ -19,19 +19,21 @@ def hlPush (h : HL) (s : Str) : Outcome HL :=
   | .diverge => .diverge
 
 /-- `wcoll_expand`: `while ((hosts = hostlist_shift(hl))) hostlist_push(new, hosts)`;
-    every successful shift decrements `nhosts`, so `fuel = nhosts + 1` rounds suffice -/
-def wcollExpandLoop : Nat → HL → HL → Outcome HL
-  | 0, _, new => .ok new
-  | f + 1, old, new =>
-    if shiftCrashes old then .ub "hostlist_shift: no range record" else
-    match shift old with
-    | (none, _) => .ok new
-    | (some host, old') =>
+    every successful shift decrements `nhosts`, so `fuel = nhosts + 1` rounds suffice.
+    (`old` is carried as the list of its range records and its counter, see `shiftL`.) -/
+def wcollExpandLoop : Nat → List HRange → Int → HL → Outcome HL
+  | 0, _, _, new => .ok new
+  | f + 1, rs, nh, new =>
+    if nh > 0 && rs.isEmpty then .ub "hostlist_shift: no range record" else
+    match shiftL rs nh with
+    | (none, _, _) => .ok new
+    | (some host, rs', nh') =>
       match hlPush new host with
-      | .ok new' => wcollExpandLoop f old' new'
+      | .ok new' => wcollExpandLoop f rs' nh' new'
       | o => o
 
-def wcollExpand (h : HL) : Outcome HL := wcollExpandLoop (h.nhosts.toNat + 1) h HL.new
+def wcollExpand (h : HL) : Outcome HL :=
+  wcollExpandLoop (h.nhosts.toNat + 1) h.ranges.toList h.nhosts HL.new
 
 /-- is this comma-word a plain target word for `wcoll_arg_process` (no `-x`-style exclusion, no
     `^file`, no `/regex/`, no `rcmd_type:` / `user@` part)?  Other words are outside C01/C15. -/
